@@ -339,6 +339,11 @@ def run(ctx: Context) -> None:
         keeps = ["    if not numpy.any(numpy.ma.getmask($pair)):", "    if not numpy.ma.getmask($pair).any():"]
         lp = first(mm, *([f"{h}\n{sk}\n{b_}" for h in heads for sk in skips for b_ in bodies]
                          + [f"{h}\n{kp}\n" + '\n'.join('    ' + line for line in b_.split('\n')) for h in heads for kp in keeps for b_ in bodies]))
+        if lp is None:
+            # the interior edges picked at once: rows of the edge-face table without a missing entry
+            pick = mm.ordered('$boundary = numpy.ma.getmaskarray(self.edge_face_array).any(axis=1)', '$interior = numpy.flatnonzero(~$boundary)')
+            if pick:
+                lp = first(mm, *[f"for $l, $r in numpy.ma.getdata(self.edge_face_array)[$interior]:\n" + '\n'.join(line for line in b_.split('\n')[1:]) for b_ in bodies])
         ok = lp is not None and mm.stmt('$cnt = numpy.zeros(self.face_count, dtype=self.sensible_dtype)') is not None
         ctx.check('R10.4', ok, "face-face: each interior edge links its two faces in both directions (symmetric adjacency); boundary edges are skipped", mff, lp or mff.node)
         derivation_loops['make_face_face_array'] = lp
@@ -396,6 +401,11 @@ def run(ctx: Context) -> None:
         tw = ctx.func(f"{TOPO}.two_dimension")
         mt = Matcher(ctx, tw)
         std = mt.stmt("if $two in self.dataset.sizes and self.dataset.sizes[$two] == 2:\n    return $two")
+        two_literal = False
+        if std is None:
+            # the standard name written as the literal it is
+            std = mt.stmt("if 'Two' in self.dataset.sizes and self.dataset.sizes['Two'] == 2:\n    return 'Two'")
+            two_literal = std is not None
         # "the first dimension of size 2, else `two`": a first-match loop reads as next((name for name, size in sizes.items() if size == 2), two)
         scan = []
         for r in tw.returns():
@@ -406,8 +416,11 @@ def run(ctx: Context) -> None:
                         and norm_text(v.args[0].elt) == norm_text(g_.target.elts[0]) and [norm_text(t) for t in g_.ifs] == [f"{norm_text(g_.target.elts[1])} == 2"]:
                     scan.append(r)
         two_def = [n for n in walk_no_nested(tw.node) if isinstance(n, ast.Assign) and const_value(n.value, None) == 'Two']
-        ok = std is not None and len(scan) == 1 and std.lineno < scan[0].lineno and len(two_def) == 1 and mt.name('two') == norm_text(two_def[0].targets[0]) \
-            and scan[0] is tw.returns()[-1] and norm_text(scan[0].value.args[1]) == mt.name('two')
+        if two_literal:
+            ok = len(scan) == 1 and std.lineno < scan[0].lineno and scan[0] is tw.returns()[-1] and const_value(scan[0].value.args[1], None) == 'Two'
+        else:
+            ok = std is not None and len(scan) == 1 and std.lineno < scan[0].lineno and len(two_def) == 1 and mt.name('two') == norm_text(two_def[0].targets[0]) \
+                and scan[0] is tw.returns()[-1] and norm_text(scan[0].value.args[1]) == mt.name('two')
         ctx.check('R10.5', ok, "without an edge table to say, the size-2 dimension is the one named 'Two' when it exists with size 2, else the first dimension of size 2, else a new 'Two'", tw, tw.node,
                   construct='two_dimension: standard name first, then any size-2 dimension, then the standard name')
         # an unrelated dimension of size two (exactly two time steps) must not be taken for the pair dimension
